@@ -1,6 +1,7 @@
 from __future__ import annotations
 
 from copy import deepcopy
+from numbers import Integral
 from typing import TYPE_CHECKING, Any, Generic, Self, TypeVar, cast, overload
 from warnings import warn
 
@@ -127,11 +128,11 @@ class CompositeOperation(Generic[OperationType]):
         CompositeDisplacementMove
             The composite move.
         """
-        if n < 1 or not isinstance(n, int):
+        if not isinstance(n, Integral) or n < 1:
             raise ValueError(
                 "The number of times the move is repeated must be a positive, non-zero integer."
             )
-        return type(self)(self.operations * n)
+        return type(self)(self.operations * int(n))
 
     def __getitem__(self, index: int) -> OperationType:
         """
